@@ -135,9 +135,26 @@ func oracleKHist(c *Ctx, id int, body, impl string) {
 		for j := i + 1; j < len(runs); j++ {
 			a, b := runs[i].call, runs[j].call
 			Ta, Tb := a.T(), b.T()
-			T := minI(Ta, Tb)
-			if !sameCall(a, b, T) {
+			if !sameCall(a, b, 0) {
 				continue
+			}
+			// T = length of the longest common prefix of the input series (causality: outputs before the first difference agree)
+			T := minI(Ta, Tb)
+			for _, pair := range [][2][][]float64{{a.In, b.In}} {
+				for k := range pair[0] {
+					for t := 0; t < T; t++ {
+						if math.Float64bits(pair[0][k][t]) != math.Float64bits(pair[1][k][t]) {
+							T = t
+							break
+						}
+					}
+				}
+			}
+			if T == 0 {
+				continue
+			}
+			if T < minI(Ta, Tb) {
+				Ta, Tb = -1, -2 // not identical calls: states are not compared, the message names the prefix
 			}
 			// equal up to T: outputs up to T must be bit-identical (purity when Ta == Tb, causality otherwise)
 			for o := range res[i].Out {
@@ -145,7 +162,7 @@ func oracleKHist(c *Ctx, id int, body, impl string) {
 					if !bits(res[i].Out[o][t], res[j].Out[o][t]) {
 						what := "same parameters, states and inputs"
 						if Ta != Tb {
-							what = fmt.Sprintf("inputs equal up to t=%d (lengths %d and %d)", T, Ta, Tb)
+							what = fmt.Sprintf("inputs equal up to t=%d (lengths %d and %d)", T, a.T(), b.T())
 						}
 						c.OracleFail(id, a.Model+":purity", fmt.Sprintf("runs %d and %d (%s) differ at output %d timestep %d: %v vs %v", i, j, what, o, t, res[i].Out[o][t], res[j].Out[o][t]), body)
 						return
@@ -231,6 +248,55 @@ func genKHist(c *Ctx) {
 					add(c.R.Intn(2), ch)
 					c.Stats.Count("later_inputs_changed")
 				}
+			}
+			if i < 4 {
+				// QUIET-THEN-EVENT class: the same call with a SUBSET of its input series silenced (zero; i == 0: all of them, 1: one,
+				// 2: two, 3: a random half) before t0 and the drawn series afterwards, next to the quiet series of full length and
+				// the truncation at t0. A kernel that looks at an aggregate of a WHOLE series (any non-zero value, a maximum, a sum
+				// above a threshold) before its loop gives different early outputs for these. Zero initial states every other time.
+				t0 := c.R.Range(1, base.T()-1)
+				init := base.Init || c.R.Bool()
+				quiet := &KCall{Model: base.Model, Init: init, P: base.P, S: base.S}
+				event := &KCall{Model: base.Model, Init: init, P: base.P, S: base.S}
+				trunc := &KCall{Model: base.Model, Init: init, P: base.P, S: base.S}
+				ni := len(base.In)
+				sil := make([]bool, ni)
+				switch i {
+				case 0:
+					for k := range sil {
+						sil[k] = true
+					}
+				case 1:
+					sil[c.R.Intn(ni)] = true
+				case 2:
+					sil[c.R.Intn(ni)] = true
+					sil[c.R.Intn(ni)] = true
+				default:
+					for k := range sil {
+						sil[k] = c.R.Bool()
+					}
+					sil[c.R.Intn(ni)] = true
+				}
+				for k, sr := range base.In {
+					q := append([]float64{}, sr...)
+					if sil[k] {
+						for t := range q {
+							q[t] = 0
+						}
+					}
+					e := append([]float64{}, q...)
+					copy(e[t0:], sr[t0:])
+					if sil[k] && maxAbs(e[t0:]) == 0 {
+						e[len(e)-1] = 1 + math.Abs(sr[0])
+					}
+					quiet.In = append(quiet.In, q)
+					event.In = append(event.In, e)
+					trunc.In = append(trunc.In, q[:t0])
+				}
+				add(1, quiet)
+				add(2, event)
+				add(3, trunc)
+				c.Stats.Count("quiet_then_event")
 			}
 			add(0, base) // and once more at the end, on the first object
 			var b strings.Builder
